@@ -133,6 +133,15 @@ class Oracle(simcheck.BaseOracle):
         if a[0] == "replace":
             # the replaced order is excluded, the order is counted at its NEW price
             if result == "True":
+                # even at the price the order has NOW (which is what the control looks at, known finding F1) the replaced order counts
+                # in full on top of the others: a replacement that exceeds the selection limit on that reckoning was not checked at all
+                oe_cur = order_exposure(order)
+                w0_, l0_ = position(same)
+                side0 = -l0_ if order.side == "BACK" else -w0_
+                if st.max_selection_exposure is not None and side0 + oe_cur > frac(st.max_selection_exposure) + slack(same) and not self.f2_tainted(same):
+                    self.add("replace-accepted-over-the-selection-limit", "replace of order %d accepted: the other orders of the selection risk %s, "
+                             "the order in full at its current price %s, max_selection_exposure %s" % (
+                                 order._vidx, float(side0), float(oe_cur), st.max_selection_exposure))
                 oe_new = order_exposure(order, price=a[2])
                 if st.max_order_exposure is not None and oe_new > frac(st.max_order_exposure) + Fraction(1, 10**6):
                     self.add("replace-validated-at-old-price", "replace of order %d to price %s accepted: its worst-case loss %s exceeds max_order_exposure %s" % (
